@@ -76,7 +76,7 @@ ALPHABETS = {
     "base3": (0.0, 1.0, 3.0),
     "neg": (-2.0, 0.0, 3.0),
     "base4": (-2.0, 0.0, 1.0, 3.0),
-    "huge": (0.0, 1.0, 1e12),
+    "huge": (0.0, 1.0, 1e15),
 }
 
 
@@ -279,6 +279,34 @@ def work_long(unit):
     return acc.result()
 
 
+def work_sequence(unit):
+    """Call history: the same process labels tables with the SAME K and a decreasing (then increasing)
+    number of points; every call must still be optimal (work arrays may not leak between calls)."""
+    (K, tier, mode) = unit
+    kernel = _kernel()
+    acc = Acc()
+    Ts = [T for T in (8, 7, 5, 6, 4, 3, 2, 1, 2, 4, 3) if T * K <= 16]
+    rng_tables = {}
+    for rep in range(3):
+        for T in Ts:
+            if (T, K) not in rng_tables:
+                total = 3 ** (T * K)
+                pick = np.unique(np.linspace(0, total - 1, 40).astype(np.int64))
+                rng_tables[(T, K)] = np.concatenate([tables_block(T, K, "base3", int(i), int(i) + 1) for i in pick])
+            tabs = rng_tables[(T, K)]
+            for (kind, value) in (("float", 1.0), ("float", 0.5), ("vec", [float((2 * i) % 3) for i in range(T)])):
+                beta = make_beta(kind, value)
+                for b in range(len(tabs)):
+                    acc.n += 1
+                    acc.nontrivial += 1
+                    msg = judge(kernel, tabs[b], beta, K, refs.dp_min(tabs[b], refs.beta_vector(beta, T)))
+                    if msg:
+                        acc.fail(dict(case(mode, tabs[b], kind, value, "C"), after_sequence=Ts), f"after calls with T in {Ts}: " + msg)
+                        return acc.result()
+    acc.sample({"family": "call sequence", "K": K, "T_order": Ts, "mode": mode})
+    return acc.result()
+
+
 def long_plan(tier):
     shapes_ = [(10, 2, 3.0), (7, 3, 3.0), (6, 4, 2.0)] if tier == "quick" else \
         [(14, 2, 3.0), (12, 2, 1.0), (9, 3, 3.0), (7, 4, 2.0), (6, 5, 2.0)]
@@ -313,6 +341,7 @@ def enumerate_mode(ctx, mode):
     units = [u + (ctx.tier, mode) for u in plan(ctx.tier, mode)]
     res = ctx.pmap(work, units)
     res += ctx.pmap(work_long, [u + (ctx.tier, mode) for u in long_plan(ctx.tier)])
+    res += ctx.pmap(work_sequence, [(K, ctx.tier, mode) for K in (2, 3, 4)])
     return res
 
 
@@ -348,14 +377,15 @@ def run(ctx):
     ctx.cov["exhaustive"] = True
     ctx.cov["shapes"] = {m: [list(s) for s in shapes(ctx.tier, m)] for m in ("nojit", "jit")}
     ctx.cov["rule"] = (
-        "every cost table over the integer alphabets {0,1,3}, {-2,0,3}/{-2,0,1,3}, {0,1,1e12} for every "
+        "every cost table over the integer alphabets {0,1,3}, {-2,0,3}/{-2,0,1,3}, {0,1,1e15} for every "
         "listed (T,K), x every beta in the menu (scalars 0,0.5,1,2,5 as float, 0,1,2,5 also as int/np.float64; int64/float32/int32 tables for T*K<=6 with beta 0.5 and 1, every vector "
         "in {0,2}^T and {0,1,5}^T); oracle = brute force over all K^T sequences, exact equality; "
         "distinct_nontrivial counts distinct (table,beta) pairs (float/vector betas, interpreted pass "
         "only) whose optimum is strictly better than every constant sequence and than the per-point "
         "greedy sequence, i.e. where the dynamic programme has to trade assignment against switching; plus the "
         "'one-hot' family for longer sequences (every c in K^T for (T,K) in {(10,2),(7,3),(6,4)}, thorough up to "
-        "T=14): oracle forward DP, cross-checked against brute force")
+        "T=14): oracle forward DP, cross-checked against brute force; plus call sequences: one process labels "
+        "tables with the same K and T = 8,7,5,6,4,3,2,1,2,4,3 (three passes) - results may not depend on earlier calls")
     ctx.assumptions += [
         "binary64 sums of the integer alphabets are exact (all partial sums < 2^53)",
         "numba compiles the kernel per argument signature; signatures exercised: float64 C/F table x "
